@@ -262,6 +262,10 @@ func main() {
 						continue
 					}
 					ps = append(ps, pair{r, a, b, refEqStruct(r.s, a, b), "pair"})
+					if a.Key(false) != b.Key(false) {
+						// the same pair with every equal pointee shared between the two objects
+						ps = append(ps, pair{r, a, b, refEqStruct(r.s, a, b), "alias"})
+					}
 				}
 				ps = append(ps, pair{r, a, a.Clone(), true, "copy"})
 				ps = append(ps, pair{r, a, a, true, "self"})
@@ -277,8 +281,8 @@ func main() {
 		var reqs []*gen.Req
 		for _, p := range ps {
 			q := &gen.Req{Type: gen.RegKey(it, p.r.s.Name), Op: "deepequal", Val: p.a, Val2: p.b}
-			if p.kind == "self" {
-				q.Args = "self"
+			if p.kind == "self" || p.kind == "alias" {
+				q.Args = p.kind
 			}
 			reqs = append(reqs, q)
 		}
